@@ -19,7 +19,7 @@ echo "--- checks against the patch in /repo"
 cd /repo && git diff --quiet || { echo "repo dirty"; exit 2; }
 git apply "$wt/_seed/patch.diff" || exit 2
 for id in "$@"; do
-  out=$(cd /verif && ./check $id quick 2>&1); rc=$?
+  out=$(cd /verif && timeout 1500 ./check $id quick 2>&1); rc=$?
   echo "== $id rc=$rc"; echo "$out" | grep -E "VIOLATION|KNOWN|BUILD-FAILED|INCONCLUSIVE|HARNESS|signature" | head -6
 done
 git checkout -q -- .
